@@ -214,6 +214,13 @@ def rule_builder_cases(ctx, rep):
                         want = btext[:len(btext) - len(d)] + d if ok_free else 'an error'
                     if text != want:
                         bad.setdefault('put-value', (seq, 'put(b"%s") on %r gives %r, documented result: %s' % (d, btext, text, want)))
+            if op == 'put_digit_at' and not pushed:
+                dg, pos = arg
+                bval = btext.lstrip('0')
+                lead = btext[:len(btext) - len(bval)]
+                want_v = _value(bval) + int(chr(dg)) * 10 ** pos
+                if text != lead + str(want_v):
+                    bad.setdefault('put-digit-value', (seq, 'put_digit_at(b\'%s\', %d) on %r gives %r, documented result %r' % (chr(dg), pos, btext, text, lead + str(want_v))))
             if op == 'shift' and not pushed and arg > 0:
                 bval = btext.lstrip('0')
                 lead = btext[:len(btext) - len(bval)]
@@ -229,6 +236,19 @@ def rule_builder_cases(ctx, rep):
                 bad.setdefault('zeros', (seq, 'a leading zero is refused on %r' % btext))
             if d.strip('0') != '' and (bval == '' or (len(bval) >= len(d) and bval[len(bval) - len(d):].strip('0') == '')):
                 bad.setdefault('put-value', (seq, 'put(b"%s") is refused on %r although the positions are free' % (d, btext)))
+        if result == 'Err' and op == 'put_digit_at' and not frozen_before and not pushed_any:
+            dg, pos = arg
+            bval = btext.lstrip('0')
+            free = pos >= len(bval) or bval[len(bval) - 1 - pos] == '0'
+            if dg != 48 and free:
+                bad.setdefault('put-digit-value', (seq, 'put_digit_at(b\'%s\', %d) is refused on %r although that position is free' % (chr(dg), pos, btext)))
+        if result == 'Ok' and op == 'put_digit_at' and arg[0] == 48:
+            bad.setdefault('put-digit-value', (seq, 'put_digit_at accepts the digit 0'))
+        if op == 'push' and not frozen_before and isinstance(btext, str):
+            d = arg.decode()
+            if result != 'Ok' or text != btext + d:
+                bad.setdefault('push-appends', (seq, 'push(b"%s") on %r gives %s %r, documented result: Ok %r (digits are appended as dictated)' % (
+                    d, btext, result if result != 'Err' else 'Err(%s)' % err, text, btext + d)))
         if op == 'reset' and after != fresh:
             diff = [(QUERY_GRID[i] if i < len(QUERY_GRID) else 'field', fresh[i], after[i]) for i in range(len(after)) if fresh[i] != after[i]][:2]
             bad.setdefault('reset-is-new', (seq, 'after reset() the builder differs from new(): %s' % diff))
@@ -236,6 +256,8 @@ def rule_builder_cases(ctx, rep):
             'emptiness': 'is_empty / is_null agree with the rendering', 'error-changes-nothing': 'an Err step changes no query result and no field',
             'frozen-refuses': 'a frozen builder refuses every mutator with Err(Frozen)', 'digits-kept': 'successful steps keep placed non-zero digits in order',
             'zeros': 'put accepts zeros exactly while the value is zero and keeps them', 'put-value': 'put places its digits into free positions, else fails',
+            'put-digit-value': 'put_digit_at(d, p) adds d x 10^p when that position is free, else fails',
+            'push-appends': 'push appends its digits (fraction digits are kept as dictated)',
             'shift-value': 'shift(p) multiplies the rightmost p-digit group or an implicit 1 by 10^p', 'reset-is-new': 'reset() gives the state of new()'}
     for k, msg in msgs.items():
         if k in bad:
